@@ -30,7 +30,7 @@
     rolled back with everything else ([recv]).
 
     Not modelled: GetStandardDenom failing (the standard denomination is set at genesis), vesting
-    locks (SpendableCoins = balance), packet data that does not unmarshal (the transfer module has
+    locks (SpendableCoins = balance: the app registers no vesting account type), packet data that does not unmarshal (the transfer module has
     already decoded it), sdkmath overflow inside x/erc20 (as in Model/Convert.v). *)
 From Coq Require Import ZArith List Bool.
 From Canto Require Import Lib.SdkInt Lib.SdkDec Model.Coinswap.
